@@ -235,7 +235,10 @@ class Recorder:
         rec = {"id": d.id, "lvl": int(d.level), "lix": lvl,
                "par": (parent.id if isinstance(parent, AbstractDeme) else ("MANY" if parent == "MANY" else "")),
                "sa": int(d.started_at), "cls": d.__class__.__name__,
-               "act": int(bool(d.is_active)), "hib": int(bool(getattr(d, "_hibernating", False))),
+               # (hibernating = flagged while the option is on: a flag left over after the option was switched off on a
+               # live tree suspends nobody)
+               "act": int(bool(d.is_active)),
+               "hib": int(bool(getattr(d, "_hibernating", False)) and bool(tree.config.options.get("hibernation", False))),
                "ev": int(d.n_evaluations), "me": int(d.metaepoch_count),
                "gens": [len(m) for m in hist], "kids": [c.id for c in d.children]}
         if full:
@@ -428,12 +431,15 @@ class Recorder:
             plt.close("all")
         return out
 
-    def do_dump(self, tree) -> None:
-        """C19: pickle_dump / pickle_load at this boundary; the loaded tree is run to its end under its own recorder copy"""
+    def do_dump(self, tree, path=None) -> None:
+        """C19: pickle_dump / pickle_load at this boundary; the loaded tree is run to its end under its own recorder copy.
+        With `path` the snapshot goes to that file (kept: the caller overwrites it with a later snapshot of the same tree)."""
         from pyhms.tree import DemeTree
         self.dumped = True
-        fd, path = tempfile.mkstemp(suffix=".pkl", dir=os.environ.get("VERIF_SCRATCH") or None)
-        os.close(fd)
+        keep = path is not None
+        if path is None:
+            fd, path = tempfile.mkstemp(suffix=".pkl", dir=os.environ.get("VERIF_SCRATCH") or None)
+            os.close(fd)
         ev = {"e": "dump", "snap": self.snap(tree, full=False), "err": ""}
         try:
             before = self.state_digest(tree, with_rng=True)
@@ -518,7 +524,7 @@ class Recorder:
             for k in ("stutter", "loadeq", "summarysame", "verdictsame", "livestill"):
                 ev.setdefault(k, 0)
         finally:
-            if os.path.exists(path):
+            if os.path.exists(path) and not keep:
                 os.unlink(path)
         self.emit(ev)
 
@@ -617,6 +623,11 @@ class LevelObjective:
     def __call__(self, x, *a, **k):
         v = objectives.truth(self.rec.fn_of(self.level), x, self.rec.bounds, self.rec.maximize)
         self.rec.note_call(self.level, x, v)
+        form = getattr(self.rec, "ret_form", "py")
+        if form == "arr0":          # what np.where / np.squeeze / np.asarray leave behind: a 0-d array (a mutable object)
+            return np.asarray(v, dtype=np.float64)
+        if form == "np64":
+            return np.float64(v)
         return v
 
 
@@ -660,6 +671,11 @@ class RecGSC(GlobalStopCondition):
         else:
             by = rec.tree_role(tree)
         if by == "run":
+            if getattr(rec, "hib_off_at", None) is not None and mc >= rec.hib_off_at:
+                # the caller switches hibernation off on the live tree (the options dictionary is public and read live)
+                rec.hib_off_at = None
+                tree.config.options["hibernation"] = False
+                rec.emit({"e": "sethib", "v": 0, "snap": rec.snap(tree, full=False)})
             if rec.reports:
                 rec.emit_report(tree)
             if rec.dump_at is not None and not rec.dumped and int(tree.metaepoch_count) >= rec.dump_at:
